@@ -3,13 +3,15 @@ Model of the GRANDPA commit-message path of lib/grandpa (after the two `fix:` co
 harness/C18/findings.json):
 
   Service.handleCommitMessage            lib/grandpa/grandpa.go
+  Service.updateAuthorities / initiateRound (the part that installs a new authority set)
   verifyCommitMessageJustification       lib/grandpa/grandpa.go
   verifyJustification                    lib/grandpa/grandpa.go
   verifyBlockHashAgainstBlockNumber      lib/grandpa/message_handler.go
   State.threshold                        lib/grandpa/types.go
 
 Blocks are indices into a parent table (block 0 is the root, an index past the table is a block
-nobody knows); header number = depth.  Keys are numbers; the authorities are the keys `0 .. n-1`.
+nobody knows); header number = depth.  Keys are numbers; the authorities are the list `auths` of
+the set the Service is in (`State.voters`), replaced by `updateAuthorities` on a set change.
 A signature is the description of how it was made (`Sig`); it verifies for a message exactly when
 it is the untouched signature of that key over that message (ed25519 is the trusted oracle).
 Core Lean only.
@@ -99,8 +101,8 @@ structure Commit where
 deriving Repr
 
 structure Env where
-  n : Nat          -- len(state.voters); the authority keys are 0 .. n-1
-  set : Nat        -- state.setID
+  auths : List Nat -- state.voters (keys) at the moment the commit is handled
+  set : Nat        -- state.setID at that moment
   tree : Tree
   fin : Nat        -- GetHighestFinalisedHeader
   has : Bool       -- HasFinalisedBlock(round, set)
@@ -110,11 +112,14 @@ deriving Repr
 /-- `State.threshold()` -/
 def thr (n : Nat) : Nat := 2 * n / 3
 
+/-- `len(state.voters)` -/
+def Env.n (env : Env) : Nat := env.auths.length
+
 /-- `verifyJustification(.., commit.Round, setID, precommit, authorityKeySet) == nil`:
     the signature is the key's own untouched signature over exactly this vote, round and set, and
     the key is a current authority -/
 def entryValid (env : Env) (c : Commit) (e : Entry) : Bool :=
-  decide (e.sig = Sig.honest e.id e.blk e.num c.round env.set) && decide (e.id < env.n)
+  decide (e.sig = Sig.honest e.id e.blk e.num c.round env.set) && env.auths.contains e.id
 
 /-! ### verifyCommitMessageJustification -/
 
@@ -187,7 +192,9 @@ structure Out where
   trk : Bool                        -- the commit was put into the tracker
 deriving DecidableEq, Repr
 
-def handleCommit (env : Env) (c : Commit) : Out :=
+/-- `strict = false` is the code; `strict = true` is the same function with the decision the
+    property demands (more than two thirds of the authority set, counted by `specCount`) -/
+def handleCommitG (strict : Bool) (shortfall : Nat) (env : Env) (c : Commit) : Out :=
   if !env.tree.known c.tblk then ⟨.errHdr, none, none, true⟩
   else if env.tree.depth c.tblk ≠ c.tnum then ⟨.errHashNum, none, none, false⟩
   else if env.fault = 5 then ⟨.errHas, none, none, false⟩
@@ -195,12 +202,15 @@ def handleCommit (env : Env) (c : Commit) : Out :=
   else match verifyCommit env c with
     | .error x => ⟨.verr x, none, none, decide (x = .anc .start)⟩
     | .ok () =>
+      if strict then ⟨.verr (.min (thr env.n + 1) shortfall), none, none, false⟩ else
       let fin := some (c.tblk, c.round, env.set)
       if env.fault = 3 then ⟨.errSetFin, fin, none, false⟩
       else
         let pc := some (c.round, c.set, c.entries.length)
         if env.fault = 4 then ⟨.errSetPc, fin, pc, false⟩
         else ⟨.ok, fin, pc, false⟩
+
+def handleCommit (env : Env) (c : Commit) : Out := handleCommitG false 0 env c
 
 /-! ### what the property demands -/
 
@@ -226,9 +236,62 @@ def supports (env : Env) (c : Commit) (id : Nat) : Bool :=
   hasValidOnChain env c id || hasTwoValid env c id
 
 /-- number of DISTINCT current authorities that support the commit -/
-def specCount (env : Env) (c : Commit) : Nat := (List.range env.n).countP (supports env c)
+def specCount (env : Env) (c : Commit) : Nat := env.auths.countP (supports env c)
 
 /-- more than two thirds of the authority set -/
 def supermajority (w n : Nat) : Bool := decide (3 * w > 2 * n)
+
+/-- `handleCommitMessage` with the decision the property demands -/
+def handleCommitSpec (env : Env) (c : Commit) : Out :=
+  handleCommitG (!supermajority (specCount env c) env.n) (specCount env c) env c
+
+/-! ### histories on one Service: commits and authority-set changes -/
+
+/-- the part of the Service (and of the BlockState behind it) that commit handling reads -/
+structure Svc where
+  auths : List Nat            -- state.voters
+  set : Nat                   -- state.setID
+  fin : Nat                   -- highest finalised block
+  done : List (Nat × Nat)     -- (round, set id) pairs that have a finalised block
+deriving Repr
+
+inductive Op
+  | commit (fault : Nat) (c : Commit)
+  | setchange (newSet : Nat) (voters : List Nat)
+deriving Repr
+
+/-- the environment a commit is verified in: the authority set and set id the Service has NOW -/
+def envOf (t : Tree) (s : Svc) (fault : Nat) (c : Commit) : Env :=
+  ⟨s.auths, s.set, t, s.fin, s.done.contains (c.round, s.set), fault⟩
+
+/-- a successful SetFinalisedHash moves the highest finalised block and marks (round, set) -/
+def Svc.record (s : Svc) (fault : Nat) (o : Out) : Svc :=
+  match o.fin with
+  | some (b, r, st) => if fault = 3 then s else { s with fin := b, done := (r, st) :: s.done }
+  | none => s
+
+/-- `updateAuthorities` (through `initiateRound`): a different current set id installs its voters -/
+def Svc.setchange (s : Svc) (newSet : Nat) (voters : List Nat) : Svc :=
+  if newSet = s.set then s else { s with auths := voters, set := newSet }
+
+inductive OpOut
+  | commit (o : Out)
+  | set (set : Nat) (voters : List Nat)
+deriving Repr
+
+def stepOpG (h : Env → Commit → Out) (t : Tree) (s : Svc) : Op → Svc × OpOut
+  | .commit f c => let o := h (envOf t s f c) c; (s.record f o, .commit o)
+  | .setchange ns vs => let s' := s.setchange ns vs; (s', .set s'.set s'.auths)
+
+def runG (h : Env → Commit → Out) (t : Tree) : List Op → Svc → List OpOut
+  | [], _ => []
+  | op :: ops, s => let r := stepOpG h t s op; r.2 :: runG h t ops r.1
+
+def stepOp := stepOpG handleCommit
+def run := runG handleCommit
+def runSpec := runG handleCommitSpec
+
+/-- Service state after a history -/
+def stateAfter (t : Tree) (s : Svc) (ops : List Op) : Svc := ops.foldl (fun s op => (stepOp t s op).1) s
 
 end Gossamer.C18
